@@ -2,9 +2,10 @@ CONSTANTS
   MaxN = 3
   NegLo = 2
   Hi = 3
-  Modes = {"psd", "sd", "sh", "th"}
+  Modes = {"psd", "sd", "sh", "ns", "th"}
 INIT Init
 NEXT Next
 INVARIANT Agree
+INVARIANT NearSingular
 INVARIANT Emit
 CHECK_DEADLOCK FALSE
